@@ -198,7 +198,7 @@ fn replay(dir: &str) -> i32 {
     let case = &doc["case"];
     let prop = doc["property"].as_str().unwrap_or("?").to_string();
     let res = pool::on_fresh_thread(1, || match case["engine"].as_str().unwrap_or("") {
-        "c17" => engines::c17::replay(case),
+        "c17" | "c17-e2e" => engines::c17::replay(case),
         "c13" | "c13-values" => engines::c13::replay(case),
         "faults" => engines::faults::replay(case),
         "c02" => engines::c02::replay(case),
